@@ -131,6 +131,9 @@ func c20(tier string) []*explore.Scenario {
 	for _, end := range []string{"stop", "read-fails", "write-fails"} {
 		out = append(out, c20ConnEndsInFlight(end, 1), c20ConnEndsInFlightN(end, 8, 0), c20ConnEndsInFlightN(end, 11, 0))
 	}
+	for _, wf := range []bool{false, true} {
+		out = append(out, c20AfterTransportFailure(wf, 0), c20AfterTransportFailure(wf, 2))
+	}
 	for _, ic := range []string{"retry", "fallback", "own-context", "retry-stream"} {
 		out = append(out, c20ClientInterceptorStats(ic))
 	}
@@ -758,6 +761,85 @@ func c20ConnEndsInFlightN(end string, extra, bound int) *explore.Scenario {
 					}
 				}
 			}
+		},
+	}
+}
+
+// c20AfterTransportFailure: the connection's transport fails (its read side, the write side
+// failing too or not); RPCs attempted on that ClientConn afterwards are RPCs like any other:
+// the client's unary / stream interceptor runs once for each, and every client stats handler
+// sees one Begin and one End with an error for each attempt that gets as far as the library.
+func c20AfterTransportFailure(writeFails bool, before int) *explore.Scenario {
+	fam := "C20/stats"
+	return &explore.Scenario{
+		Name: fmt.Sprintf("C20/after-transport-failure/writefails=%v/earlier-calls=%d", writeFails, before), Family: fam, Prop: "C20", Bound: 0, Horizon: time.Hour,
+		Run: func() {
+			sh := newC20SH("c0")
+			unaryIC, streamIC := 0, 0
+			dial := []goat.DialOption{goat.WithStatsHandler(sh),
+				goat.WithUnaryInterceptor(func(ctx context.Context, method string, req, reply any, cc *grpc.ClientConn, inv grpc.UnaryInvoker, opts ...grpc.CallOption) error {
+					unaryIC++
+					return inv(ctx, method, req, reply, cc, opts...)
+				}),
+				goat.WithStreamInterceptor(func(ctx context.Context, desc *grpc.StreamDesc, cc *grpc.ClientConn, method string, st grpc.Streamer, opts ...grpc.CallOption) (grpc.ClientStream, error) {
+					streamIC++
+					return st(ctx, desc, cc, method, opts...)
+				}),
+			}
+			w := env.NewWorld()
+			d := env.NewDirect(w, env.DirectOpts{Pipe: env.PipeOpts{Cap: 64}, DialOpts: dial})
+			d.Pipe.A.WriteFailsWithRead = writeFails
+			vsched.Settle()
+			var ok []bool
+			for i := 0; i < before; i++ {
+				r := w.Rec(fmt.Sprintf("b%d", i), "Unary")
+				w.CallUnary(d.CC, context.Background(), r, "x")
+				ok = append(ok, r.CErr == nil)
+			}
+			vsched.Settle()
+			d.Pipe.A.FailReads()
+			vsched.Settle()
+			for i := 0; i < 3; i++ {
+				r := w.Rec(fmt.Sprintf("a%d", i), "Unary")
+				done := false
+				vsched.GoNamed("caller-"+r.Tag, func() { w.CallUnary(d.CC, context.Background(), r, "x"); done = true })
+				vsched.QuiesceTime()
+				if !done || r.CErr == nil {
+					vsched.Fail(fam+"|harness", "a unary call on a failed connection: done=%v err=%v", done, r.CErr)
+					return
+				}
+				ok = append(ok, false)
+			}
+			rs := w.Rec("as", "Bidi")
+			sdone := false
+			vsched.GoNamed("caller-as", func() {
+				if cs := w.Open(d.CC, context.Background(), rs); cs != nil {
+					env.CSend(rs, cs, "m")
+					env.CRecvAll(rs, cs)
+				}
+				sdone = true
+			})
+			vsched.QuiesceTime()
+			if !sdone {
+				vsched.Fail(fam+"|harness", "a stream attempt on a failed connection never returned")
+				return
+			}
+			if rs.COpenErr == nil {
+				ok = append(ok, false) // (a stream whose open is refused outright emits nothing: nothing to count)
+			}
+			vsched.Obs("writefails=%v: interceptors unary=%d stream=%d events=%v", writeFails, unaryIC, streamIC, sh.events)
+			if unaryIC != before+3 {
+				vsched.Fail(fam+"|interceptor-count", "%d unary calls before and 3 after the transport failed: the client's unary interceptor ran %d times", before, unaryIC)
+			}
+			if streamIC != 1 {
+				vsched.Fail(fam+"|interceptor-count", "one stream attempt after the transport failed: the client's stream interceptor ran %d times", streamIC)
+			}
+			sh.check(fam, "client", len(ok), func(i int) (bool, bool) {
+				if i < len(ok) {
+					return ok[i], true
+				}
+				return false, false
+			})
 		},
 	}
 }
